@@ -154,11 +154,11 @@ func c07Gen(r *Rng, tier string, idx int) (string, func() string) {
 	f := c07GetFacts()
 	switch {
 	case idx == 0:
-		return c07WRCase(r, "LJH22", true, f, 0)
+		return c07WRCase(r, "LJH22", true, f, 0, 0)
 	case idx == 1:
-		return c07WRCase(r, "LJH3", true, f, 0)
+		return c07WRCase(r, "LJH3", true, f, 0, 0)
 	case idx == 2:
-		return c07WRCase(r, "OFF", true, f, 0)
+		return c07WRCase(r, "OFF", true, f, 0, 0)
 	case idx == 3:
 		return c07PDCase(r, []string{"ljh22", "ljh3", "off"}, true)
 	case idx == 4:
@@ -173,19 +173,32 @@ func c07Gen(r *Rng, tier string, idx int) (string, func() string) {
 	// they run concurrently with the rest and with each other.
 	if tier == "thorough" {
 		if idx%417 == 30 {
-			return c07WRCase(r, []string{"LJH22", "LJH3", "OFF"}[(idx/417)%3], false, f, 3000+500*((idx/417)%5))
+			return c07WRCase(r, []string{"LJH22", "LJH3", "OFF"}[(idx/417)%3], false, f, 3000+500*((idx/417)%5), 0)
+		}
+		if idx%417 == 60 {
+			return c07WRCase(r, "LJH3", false, f, 0, 1)
+		}
+		if idx == 90+417 {
+			return c07WRCase(r, "LJH22", false, f, 0, 2)
 		}
 	} else if idx == 30 || idx == 60 || idx == 90 {
-		return c07WRCase(r, []string{"LJH22", "LJH3", "OFF"}[idx/30-1], false, f, 3000)
+		return c07WRCase(r, []string{"LJH22", "LJH3", "OFF"}[idx/30-1], false, f, 3000, 0)
+	} else if idx == 120 || idx == 121 {
+		return c07WRCase(r, "LJH3", false, f, 0, 1)
+	} else if idx == 150 {
+		return c07WRCase(r, "LJH22", false, f, 0, 2)
 	}
 	switch c := r.Intn(1000); {
 	case c >= 940:
 		return c07PUBCase(r, 0)
 	case c < 25:
-		return c07WRCase(r, []string{"LJH22", "LJH3", "OFF"}[r.Intn(3)], false, f, 0)
+		return c07WRCase(r, []string{"LJH22", "LJH3", "OFF"}[r.Intn(3)], false, f, 0, 0)
 	case c < 30:
 		ws := [][]string{{"ljh22"}, {"ljh3"}, {"off"}, {"ljh22", "off"}, {"ljh22", "ljh3", "off"}, {"ljh3", "ljh22"}}
 		return c07PDCase(r, ws[r.Intn(len(ws))], false)
+	}
+	if r.Chance(4) {
+		return c07ABCase(r, tier, 9, f)
 	}
 	return c07ABCase(r, tier, 0, f)
 }
@@ -233,8 +246,41 @@ func (g *c07Gate) Slice(a, b int) []byte {
 }
 
 type c07Hop struct {
-	kind   string // R (record), G0, G1, G1n, F, Z, S, C
-	chunks [][]byte
+	kind    string // R (record), G0, G1, G1n, G1t, T, B, L, F, Z, S, C
+	chunks  [][]byte
+	free, n int // L: one-byte records until `free` slots are left, then ONE write of n bytes
+}
+
+// c07hex: lowercase hex with runs of >= 16 equal bytes written as `xx*count`; segments joined by '.'
+// (a 64 KiB record of constant samples is a few characters on the line).  `-` = empty.
+func c07hex(b []byte) string {
+	if len(b) == 0 {
+		return "-"
+	}
+	if len(b) < 64 {
+		return fmt.Sprintf("%x", b)
+	}
+	var segs []string
+	lit := 0 // start of the pending literal stretch
+	i := 0
+	for i < len(b) {
+		j := i
+		for j < len(b) && b[j] == b[i] {
+			j++
+		}
+		if j-i >= 16 {
+			if lit < i {
+				segs = append(segs, fmt.Sprintf("%x", b[lit:i]))
+			}
+			segs = append(segs, fmt.Sprintf("%02x*%d", b[i], j-i))
+			lit = j
+		}
+		i = j
+	}
+	if lit < len(b) {
+		segs = append(segs, fmt.Sprintf("%x", b[lit:]))
+	}
+	return strings.Join(segs, ".")
 }
 
 type c07AB struct {
@@ -246,6 +292,7 @@ type c07AB struct {
 	tickBytes                         int   // bytes that periodic flush is writing
 	accLens                           []int // lengths of the accepted chunks, in order
 	nPopped                           int   // chunks received by the consumer so far
+	fill                              byte  // content of the next L record
 	g                                 *c07Gate
 	aw                                *asyncbufio.Writer
 	toks                              []string
@@ -311,7 +358,7 @@ func (a *c07AB) write(c []byte) bool {
 	}
 	pre, post := a.observe(b2i(ok), ok && full)
 	a.toks = append(a.toks, pre...)
-	a.tok("w %s %d", hexs(c), b2i(ok))
+	a.tok("w %s %d", c07hex(c), b2i(ok))
 	a.toks = append(a.toks, post...)
 	if ok {
 		a.accBytes += len(c)
@@ -398,6 +445,27 @@ func (a *c07AB) run(hops []c07Hop) string {
 				c07WaitUntil(3*time.Millisecond, a.g.Blocked)
 			}
 			a.pinCheck()
+		case "B": // wait until the consumer is stuck in the closed gate (it received a chunk larger than bufio's buffer)
+			if !a.closed && !a.g.IsOpen() {
+				c07WaitUntil(5*time.Millisecond, a.g.Blocked)
+			}
+			a.idle()
+		case "L": // bring the queue to `free` free slots with one-byte records, then ONE long write
+			for tries := 0; tries < a.cap+3 && !a.closed; tries++ {
+				if a.cap-a.aw.VerifQueueLen() <= h.free {
+					break
+				}
+				a.fill++
+				ok := a.write([]byte{a.fill})
+				a.tok("e %d", b2i(ok))
+			}
+			a.fill++
+			c := make([]byte, h.n)
+			for i := range c {
+				c[i] = a.fill
+			}
+			ok := a.write(c)
+			a.tok("e %d", b2i(ok))
 		case "T": // wait for the ticker to fire into the closed gate
 			if !a.closed && !a.noTick && !a.g.IsOpen() {
 				c07WaitUntil(time.Duration(2*a.tickUs+2000)*time.Microsecond, a.g.Blocked)
@@ -425,7 +493,7 @@ func (a *c07AB) run(hops []c07Hop) string {
 			a.idle()
 		case "Z":
 			a.idle()
-			a.tok("z %s", hexs(a.g.Slice(a.seen, a.lastG)))
+			a.tok("z %s", c07hex(a.g.Slice(a.seen, a.lastG)))
 			a.seen = a.lastG
 		case "F", "C":
 			var p bool
@@ -440,7 +508,7 @@ func (a *c07AB) run(hops []c07Hop) string {
 			}
 			g := a.g.Len()
 			q := a.aw.VerifQueueLen()
-			a.tok("%s %d %s", strings.ToLower(h.kind), q, hexs(a.g.Slice(a.seen, g)))
+			a.tok("%s %d %s", strings.ToLower(h.kind), q, c07hex(a.g.Slice(a.seen, g)))
 			a.lastQ, a.lastG, a.seen = q, g, g
 			a.nPopped = len(a.accLens) - q
 			a.inTick = false
@@ -503,6 +571,25 @@ func c07ABCase(r *Rng, tier string, hot int, f c07Facts) (string, func() string)
 	case 2: // LJH2.2-shaped 3-chunk records against a queue of 4 under a stall
 		capv, k, tick = 4, 3, 100
 		hops = append(hops, mkRec(3, false), c07Hop{kind: "G0"}, mkRec(3, false), mkRec(3, false), mkRec(3, false), c07Hop{kind: "G1"}, c07Hop{kind: "F"}, mkRec(3, false), c07Hop{kind: "C"})
+	case 6, 7, 8, 9: // ONE write of about / more than 64 KiB against a nearly full queue under a stall
+		capv, chk = r.Pick(2, 3, 4, 5, 8), 1
+		k = ks[0]
+		if k < 1 || k > 20 {
+			k = 1
+		}
+		for j := r.Intn(3); j > 0; j-- {
+			hops = append(hops, mkRec(k, false))
+		}
+		// the consumer receives the >4 KiB chunk and sticks in the closed gate: nothing is received after it
+		hops = append(hops, c07Hop{kind: "G0"}, mkRec(1, true), c07Hop{kind: "B"})
+		for j := r.Range(1, 2); j > 0; j-- {
+			n := r.Pick(65535, 65536, 65537, 70000, 131071, 131072, 131073, 140024, 196609)
+			if r.Chance(25) {
+				n = r.Range(1, 200000)
+			}
+			hops = append(hops, c07Hop{kind: "L", free: r.Range(0, 3), n: n})
+		}
+		hops = append(hops, c07Hop{kind: "G1"}, c07Hop{kind: "F"}, mkRec(k, false), c07Hop{kind: "C"})
 	case 3, 4, 5: // a write lands while the PERIODIC flush is stalled on the disk; the disk resumes; explicit Flush
 		capv, tick, chk = r.Pick(2, 3, 5, 8), r.Pick(3000, 5000), 1
 		k = ks[0]
@@ -593,6 +680,8 @@ func c07ABCase(r *Rng, tier string, hot int, f c07Facts) (string, func() string)
 			for _, c := range h.chunks {
 				fmt.Fprintf(&sb, ":%d", len(c))
 			}
+		} else if h.kind == "L" {
+			fmt.Fprintf(&sb, " L%d:%d", h.free, h.n)
 		} else {
 			sb.WriteString(" " + h.kind)
 		}
@@ -695,10 +784,18 @@ func newC07L22(path string, nsamp int) *c07L22 {
 func c07Samples(i, n int) []uint16 {
 	d := make([]uint16, n)
 	for j := range d {
-		d[j] = uint16(i*131 + j*7 + 1)
+		if n > 1000 {
+			d[j] = uint16(i%200+1) * 0x0101 // long records: constant bytes (run-length encoded on the line)
+		} else {
+			d[j] = uint16(i*131 + j*7 + 1)
+		}
 	}
 	return d
 }
+
+// c07LongAt: record index -> sample count, for the LJH3 records the running case decided to make long
+// (shared by the stalled writer and the reference writer; one case at a time per process).
+var c07LongAt = map[int]int{}
 func (x *c07L22) create() error { return x.w.CreateFile() }
 func (x *c07L22) header() error { return x.w.WriteHeader(c07T0) }
 func (x *c07L22) rec(i int) error {
@@ -722,7 +819,11 @@ func (x *c07L3) create() error { return x.w.CreateFile() }
 func (x *c07L3) header() error { return x.w.WriteHeader() }
 func (x *c07L3) rec(i int) error {
 	// LJH3 records may vary in length
-	return x.w.WriteRecord(int32(2), int64(1000+i), int64(5000000+i*3), c07Samples(i, x.nsamp+i%3))
+	n := x.nsamp + i%3
+	if v, ok := c07LongAt[i]; ok {
+		n = v
+	}
+	return x.w.WriteRecord(int32(2), int64(1000+i), int64(5000000+i*3), c07Samples(i, n))
 }
 func (x *c07L3) flush()    { x.w.Flush() }
 func (x *c07L3) close()    { x.w.Close() }
@@ -817,6 +918,9 @@ func (r *c07Ref) rec(i int) []byte {
 			panic("reference writer rejected a record")
 		}
 		r.recs = append(r.recs, r.grow())
+		if n := len(r.recs); n >= 2 && len(r.recs[n-2]) > 4096 {
+			r.recs[n-2] = nil // records are asked for once, in order: do not keep long ones
+		}
 	}
 	return r.recs[i]
 }
@@ -872,7 +976,7 @@ func (x *c07WR) record() {
 		x.nrej++
 	}
 	if x.k != 1 { // chunk-level outcome not visible: an opaque record, judged by the oracle only
-		x.tok("R %s %d", hexs(want), b2i(ok))
+		x.tok("R %s %d", c07hex(want), b2i(ok))
 		x.lastQ = x.w.qlen()
 		return
 	}
@@ -880,7 +984,7 @@ func (x *c07WR) record() {
 	if pre != "" {
 		x.tok("%s", pre)
 	}
-	x.tok("w %s %d e %d", hexs(want), b2i(ok), b2i(ok))
+	x.tok("w %s %d e %d", c07hex(want), b2i(ok), b2i(ok))
 	if post != "" {
 		x.tok("%s", post)
 	}
@@ -909,7 +1013,7 @@ func (x *c07WR) rendezvous(name string, call func(), stall time.Duration) {
 		case <-done:
 			x.p.drain()
 			q := x.w.qlen()
-			x.tok("%s %d %s", name, q, hexs(x.p.data[x.seen:]))
+			x.tok("%s %d %s", name, q, c07hex(x.p.data[x.seen:]))
 			x.seen = len(x.p.data)
 			x.lastQ = q
 			return
@@ -921,13 +1025,34 @@ func (x *c07WR) rendezvous(name string, call func(), stall time.Duration) {
 
 type c07Phase struct {
 	kind string // free n | stall rejects | F | C | FL ms | CL ms (Flush / Close with the disk stalled that long)
-	n    int
+	// stallL: stall, small records until n%4 queue slots are left, then ONE record of n/4 samples (LJH3)
+	n int
 }
 
-func c07WRCase(r *Rng, kind string, hot bool, f c07Facts, long int) (string, func() string) {
+func c07WRCase(r *Rng, kind string, hot bool, f c07Facts, long int, big int) (string, func() string) {
 	size := r.Range(1, 6)
 	var phases []c07Phase
-	if long > 0 {
+	if big == 1 {
+		// LJH3 (records of any length): a record of about / more than 64 KiB when the stalled queue is nearly full
+		kind = "LJH3"
+		phases = []c07Phase{{kind: "free", n: r.Range(0, 5)}}
+		for j := r.Range(1, 3); j > 0; j-- {
+			ns := r.Pick(32755, 32756, 32757, 32760, 65500, 65524, 65525, 70000, 98300) // 24+2n bytes: around 1x, 2x, 3x 65536
+			if r.Chance(20) {
+				ns = r.Range(20000, 100000)
+			}
+			phases = append(phases, c07Phase{kind: "stallL", n: ns*4 + r.Range(0, 3)}, c07Phase{kind: "free", n: r.Range(0, 3)})
+			if r.Chance(50) {
+				phases = append(phases, c07Phase{kind: "F"})
+			}
+		}
+		phases = append(phases, c07Phase{kind: "C"})
+	} else if big == 2 {
+		// LJH2.2 (fixed record length): EVERY record is about / more than 64 KiB (16+2n bytes)
+		kind = "LJH22"
+		size = r.Pick(32752, 32759, 32760, 32761, 32768, 35000)
+		phases = []c07Phase{{kind: "free", n: 2}, {kind: "stall", n: r.Range(1, 4)}, {kind: "free", n: 1}, {kind: "F"}, {kind: "C"}}
+	} else if long > 0 {
 		// queue full + consumer stuck in the pipe, then Close (sometimes a Flush first) with the disk
 		// stalled for `long` ms more
 		phases = []c07Phase{{"free", r.Range(0, 8)}, {"stall", r.Range(1, 20)}}
@@ -953,10 +1078,15 @@ func c07WRCase(r *Rng, kind string, hot bool, f c07Facts, long int) (string, fun
 	}
 	var sb strings.Builder
 	for _, p := range phases {
-		fmt.Fprintf(&sb, " %s:%d", p.kind, p.n)
+		if p.kind == "stallL" {
+			fmt.Fprintf(&sb, " stallL:%d:%d", p.n/4, p.n%4)
+		} else {
+			fmt.Fprintf(&sb, " %s:%d", p.kind, p.n)
+		}
 	}
 	in := fmt.Sprintf("%s cap %d wpr %d hdrw %d chk 1 size %d scen%s", kind, 1000, f.wpr[kind], f.hdrw[kind], size, sb.String())
 	return in, func() string {
+		c07LongAt = map[int]int{}
 		ref, err := newC07Ref(kind, size)
 		if err != nil {
 			return "PANIC reference-writer-" + err.Error()
@@ -967,6 +1097,9 @@ func c07WRCase(r *Rng, kind string, hot bool, f c07Facts, long int) (string, fun
 			return "PANIC mkfifo"
 		}
 		defer p.close()
+		if big == 2 { // 64 KiB records: a roomier kernel buffer keeps the drain phases short
+			syscall.Syscall(syscall.SYS_FCNTL, uintptr(p.rfd), 1031, 1<<20)
+		}
 		x := &c07WR{kind: kind, k: f.wpr[kind], hk: f.hdrw[kind], ref: ref, p: p, open: true}
 		x.w = newC07W(kind, p.path, size)
 		if err := x.w.create(); err != nil {
@@ -979,10 +1112,10 @@ func c07WRCase(r *Rng, kind string, hot bool, f c07Facts, long int) (string, fun
 		// header: hk chunk writes into the fresh queue; their concatenation is the reference header
 		herr := x.w.header()
 		if herr != nil || x.hk < 1 || x.hk > 50 {
-			x.tok("R %s %d", hexs(ref.hdr), b2i(herr == nil))
+			x.tok("R %s %d", c07hex(ref.hdr), b2i(herr == nil))
 			x.lastQ = x.w.qlen()
 		} else {
-			x.tok("w %s 1", hexs(ref.hdr))
+			x.tok("w %s 1", c07hex(ref.hdr))
 			for j := 1; j < x.hk; j++ {
 				x.tok("w - 1")
 			}
@@ -1005,6 +1138,16 @@ func c07WRCase(r *Rng, kind string, hot bool, f c07Facts, long int) (string, fun
 				x.open = false
 				start := x.nrej
 				for n := 0; x.nrej-start < ph.n && n < 20000; n++ {
+					x.record()
+				}
+			case "stallL":
+				x.open = false
+				for n := 0; n < 20000 && x.cap-x.w.qlen() > ph.n%4; n++ {
+					x.record()
+				}
+				c07LongAt[x.nrec] = ph.n / 4
+				x.record()
+				for j := 0; j < 3; j++ {
 					x.record()
 				}
 			case "F":
@@ -1199,7 +1342,7 @@ func c07PDCase(r *Rng, writers []string, hot bool) (string, func() string) {
 					rejected[w]++
 				}
 				// the first unit holds the header too (written by the same PublishData call into the empty queue)
-				toks[w] = append(toks[w], fmt.Sprintf("R %s %d", hexs(grow), d))
+				toks[w] = append(toks[w], fmt.Sprintf("R %s %d", c07hex(grow), d))
 			}
 			return ""
 		}
@@ -1217,7 +1360,7 @@ func c07PDCase(r *Rng, writers []string, hot bool) (string, func() string) {
 						if name == "f" {
 							q = tst.qlen(w)
 						}
-						toks[w] = append(toks[w], fmt.Sprintf("%s %d %s", name, q, hexs(pp.data[seen[w]:])))
+						toks[w] = append(toks[w], fmt.Sprintf("%s %d %s", name, q, c07hex(pp.data[seen[w]:])))
 						seen[w] = len(pp.data)
 					}
 					return
@@ -1382,7 +1525,7 @@ func c07PUBCase(r *Rng, hot int) (string, func() string) {
 					toks[w] = append(toks[w], name+" 0 -") // the file shrank: reported as missing data by the oracle
 					continue
 				}
-				toks[w] = append(toks[w], fmt.Sprintf("%s 0 %s", name, hexs(b[seen[w]:])))
+				toks[w] = append(toks[w], fmt.Sprintf("%s 0 %s", name, c07hex(b[seen[w]:])))
 				seen[w] = len(b)
 			}
 		}
@@ -1416,7 +1559,7 @@ func c07PUBCase(r *Rng, hot int) (string, func() string) {
 				ref.dp.Flush()
 				for _, w := range writers {
 					b := ref.read(w)
-					toks[w] = append(toks[w], fmt.Sprintf("R %s 1", hexs(b[refSeen[w]:])))
+					toks[w] = append(toks[w], fmt.Sprintf("R %s 1", c07hex(b[refSeen[w]:])))
 					refSeen[w] = len(b)
 				}
 			case "F":
